@@ -127,7 +127,20 @@ func (c17) Run(c *fw.Ctx) {
 	case 0:
 		c17Handle(c)
 	case 1:
-		c17Sum(c)
+		// the concurrent sums run under a logical watchdog: reads that wait for each other never return, and a run that
+		// merely ends "inconclusive" after the worker's own watchdog would not name them
+		if c.Env.State["c17_sums_hung"] != nil {
+			c.Count("sum_trials_skipped_after_hang", 1)
+			return
+		}
+		done := make(chan struct{})
+		go func() { defer close(done); c17Sum(c) }()
+		select {
+		case <-done:
+		case <-time.After(240 * time.Second):
+			c.Env.State["c17_sums_hung"] = true
+			c.Violationf("concurrent-sums-do-not-return", fw.J{}, "concurrent sums over the same files (2-6 callers, 2-40 files, the first file locked for a few ms) did not return within 240 s")
+		}
 	default:
 		c17Server(c)
 	}
